@@ -10,6 +10,8 @@ battery_files = ["energy_now", "charge_now", "power_now", "current_now", "energy
 
 # ------------------------------------------------------------------ layout conventions
 def chip_prefix(c):
+    if c.get("platform"):
+        return "/sys/devices/platform/%s/hwmon/%s/" % (c["platform"], c["dir"])
     return "%s/%s/%s" % (HW, c["dir"], "device/" if c["nested"] else "")
 
 
@@ -137,6 +139,21 @@ def gen_temps(rng):
     vis = any(visible(s, ("input", "max", "crit", "label")) for c in chips for s in c["sensors"])
     cls = "temps-hwmon" if vis else ("temps-thermal" if zones else "trivial")
     return {"kind": "temps", "cls": cls, "fahr": rng.random() < 0.4, "chips": chips, "zones": zones}
+
+
+def gen_temps_coretemp(rng):
+    c = gen_temps(rng)
+    used = {ch["dir"] for ch in c["chips"]}
+    ks = [k for k in (1, 2, 4, 5) if "hwmon%d" % k not in used]
+    plat = []
+    for k in rng.sample(ks, rng.choice([1, 1, 2])):
+        ch = gen_temp_chip(rng, k, nested=False)
+        ch["platform"] = "coretemp.%d" % rng.choice([0, 1])
+        if rng.random() < 0.6:
+            ch["name"] = ["P", "coretemp"]
+        plat.append(ch)
+    c.update(kind="temps_coretemp", cls="temps-coretemp", plat=plat)
+    return c
 
 
 def single_sensor_cases(values=("45000",), names=("P", "A")):
@@ -329,10 +346,36 @@ def gen_battery_raw(rng):
             "ac0": raw_small(rng, ["1\n", "0\n", "2\n", "x\n", ""]), "ac": raw_small(rng, ["1\n", "0\n", "1"])}
 
 
-def gen_proc(rng, i):
-    return {"index": str(i), "mhz_i": rng.choice(["800", "2400", "2893", "3600", "0", "1"]),
-            "mhz_f": rng.choice(["000", "202", "001", "999", "500", "57"]),
-            "pid": str(rng.choice([0, 0, 1, i // 2])), "cores": str(rng.choice([1, 2, 4, 8]))}
+def x86_block(rng, i):
+    b = [["proc", str(i)], ["other", "vendor_id", False, "GenuineIntel"], ["other", "model name", False, "Some CPU @ 2.40GHz"],
+         ["mhz", rng.choice(["800", "2400", "2893", "3600", "0", "1"]), rng.choice(["000", "202", "001", "999", "500"])],
+         ["other", "cache size", False, "8192 KB"], ["pid", str(rng.choice([0, 0, 1, i // 2]))],
+         ["other", "siblings", False, "8"], ["cid", str(i)], ["cores", str(rng.choice([1, 2, 4, 8]))],
+         ["other", "flags", True, "fpu vme de pse"], ["other", "address sizes", False, "39 bits physical, 48 bits virtual"],
+         ["other", "power management", False, ""]]
+    r = rng.random()
+    if r < 0.1:
+        b = [l for l in b if l[0] != "pid"]
+    elif r < 0.2:
+        b = [l for l in b if l[0] != "cores"]
+    elif r < 0.25:
+        b.append(["cores", "3"])
+    return b
+
+
+def arm_blocks(rng, n, old):
+    bl = [[["proc", str(i)], ["other", "model name", False, "ARMv7 Processor rev 4 (v7l)"], ["other", "BogoMIPS", False, "38.40"]]
+          for i in range(n)]
+    if old:
+        # kernels < 3.8: the model line is spelled "Processor"; non-SMP kernels print no "processor" line at all
+        hdr = ["other", "Processor", False, "ARMv7 Processor rev 4 (v7l)"]
+        if bl:
+            bl[0].insert(0, hdr)
+        else:
+            bl.append([hdr, ["other", "BogoMIPS", False, "697.95"]])
+    bl.append([["other", "Features", False, "half thumb fastmult vfp edsp neon"], ["other", "CPU implementer", False, "0x41"],
+               ["other", "Hardware", False, "BCM2835"], ["other", "Revision", True, "a02082"]])
+    return bl
 
 
 def gen_cpufreq(rng):
@@ -356,10 +399,14 @@ def gen_cpufreq(rng):
             cpus.append({"idx": i, "kind": "on", "cur": cur, "min": rng.choice(KHZ), "max": rng.choice(KHZ)})
     r = rng.random()
     np_ = n if r < 0.35 else (0 if r < 0.6 else rng.choice([1, 2, 3, 5]))
-    procs = [gen_proc(rng, i) for i in range(np_)]
-    case = {"kind": "cpufreq", "nest": rng.choice(["policy", "cpu"]), "cpus": cpus, "procs": procs}
+    blocks = [x86_block(rng, i) for i in range(np_)]
+    for b in blocks:
+        if rng.random() < 0.1:
+            b[:] = [l for l in b if l[0] != "mhz"]
+    np_ = sum(1 for b in blocks for l in b if l[0] == "mhz")
+    case = {"kind": "cpufreq", "nest": rng.choice(["policy", "cpu"]), "cpus": cpus, "blocks": blocks}
     sysfs = cpufreq_sysfs(case)
-    if not cpus and not procs:
+    if not cpus and not blocks:
         case["cls"] = "trivial"
     elif not sysfs:
         case["cls"] = "cpufreq-cpuinfo-impl"
@@ -420,12 +467,17 @@ def gen_stat_raw(rng):
 
 def gen_cpucount(rng):
     sysconf = None if rng.random() < 0.65 else rng.choice([-1, 0, 1, 4, 64])
-    procs = [gen_proc(rng, i) for i in range(rng.choice([0, 0, 1, 2, 4, 6]))]
+    shape = rng.choice(["x86", "x86", "x86", "arm", "arm_old", "arm_old"])
+    n = rng.choice([0, 0, 1, 2, 4, 6])
+    if shape == "x86":
+        blocks = [x86_block(rng, i) for i in range(n)]
+    else:
+        blocks = arm_blocks(rng, n, shape == "arm_old")
     stat = gen_stat_lines(rng)
     nl = rng.choice([0, 0, 1, 2, 4])
     lists = [["P", rng.choice(["0", "0-1", "0,4", "1", "2-3", "0-1"])] for _ in range(nl)]
-    return {"kind": "cpucount", "cls": "cpucount" + ("-sysconf" if sysconf is not None else "-fallback"), "sysconf": sysconf,
-            "procs": procs, "stat": stat, "lists": lists, "lists_kind": rng.choice(["core_cpus_list", "thread_siblings_list"])}
+    return {"kind": "cpucount", "cls": "cpucount" + ("-sysconf" if sysconf is not None else "-fallback") + "-" + shape,
+            "sysconf": sysconf, "blocks": blocks, "stat": stat, "lists": lists, "lists_kind": rng.choice(["core_cpus_list", "thread_siblings_list"])}
 
 
 def gen_cpucount_raw(rng):
@@ -456,6 +508,7 @@ def gen_cases(rng, tier):
         cases += battery_subset_cases()
     cases += [gen_temps(rng) for _ in range(220 * n)]
     cases += [gen_temps_raw(rng) for _ in range(70 * n)]
+    cases += [gen_temps_coretemp(rng) for _ in range(40 * n)]
     cases += [gen_fans(rng) for _ in range(120 * n)]
     cases += [gen_fans(rng, uniform=False) for _ in range(20 * n)]
     cases += [gen_fans_raw(rng) for _ in range(40 * n)]
